@@ -21,7 +21,7 @@ def run(ctx):
     fi = model.func('Container.create_solution')
     sc = scan_solver(ctx, 'Container.create_solution')
     n1 = uscan.report_sinks(ctx, lambda cat: 'C05.R1' if cat in ROW_CATS else 'C05.R2' if cat in SOLVENT_CATS else None, sc)
-    floor(ctx, 'unit sink sites in create_solution', n1, 12)
+    floor(ctx, 'unit sink sites in create_solution', n1, 5)
     ctx.count('solver_variants', sc.variants)
     # every argument combination / solute kind has an accepting path; refusals are ValueError
     by_variant = {}
